@@ -268,6 +268,7 @@ class Ctx:
         self.tier = tier
         self.seed = seed
         self.replay = replay
+        self.replay_clause = None
         self.t0 = time.time()
         self.scratch = tempfile.mkdtemp(prefix=f"verif_{prop}_")
         if replay is None:
@@ -347,6 +348,8 @@ class Ctx:
         known = load_known()
         wall = time.time() - self.t0
         real = []
+        if self.replay_clause is not None:
+            self.violations = [(c, k) for c, k in self.violations if c == self.replay_clause]
         for clause, case in self.violations:
             k = classify(self.prop, clause, known)
             if k is not None:
@@ -389,7 +392,7 @@ class Ctx:
             seen = set()
             for clause, case in real:
                 # one replay file per distinct failing clause (the first case that showed it)
-                blob = json.dumps({"property": self.prop, "clause": clause, "case": case}, default=str, sort_keys=True)
+                blob = json.dumps({"property": self.prop, "clause": clause, "tier": self.tier, "seed": self.seed, "case": case}, default=str, sort_keys=True)
                 h = hashlib.sha1(blob.encode()).hexdigest()[:12]
                 key = clause
                 if key in seen:
